@@ -183,6 +183,7 @@ static const char *HDR[] = {
     /*5*/ "<?xml version='1.0' encoding='UTF-8' standalone='yes' ?>  <stream:stream\n  xmlns='jabber:client'\n  xmlns:stream='http://etherx.jabber.org/streams'\n  id='multi-line' >",
     /*6*/ "<stream:stream id='a>b' from=\"x>y/>'z\" xmlns:stream='http://etherx.jabber.org/streams' xmlns='jabber:client'>",          // '>' inside header attribute values (381fe43)
     /*7*/ "<?xml version='1.0'\n  encoding='UTF-8'\n?>\n<stream:stream xmlns:stream='http://etherx.jabber.org/streams' xmlns='jabber:client'>",   // line breaks inside the XML declaration (381fe43)
+    /*8*/ "<stream:stream from=\"o'brien.example\" id='say \"hi\" > all' xmlns:stream='http://etherx.jabber.org/streams' xmlns='jabber:client'>",   // the other quote character inside a quoted value (seed mutant C03_b2)
 };
 static const char *STZ[] = {
     /*0*/ "<presence/>",
@@ -267,6 +268,7 @@ static std::vector<Stream> corpus()
     c.push_back(mk("s40", 3, { S(17), S(0) }, true));
     c.push_back(mk("s41", 6, { S(0), S(7) }, true));
     c.push_back(mk("s42", 7, { S(1), " ", S(17) }, true));
+    c.push_back(mk("s43", 8, { S(0), S(8) }, true));
     return c;
 }
 
